@@ -22,7 +22,7 @@ SPECIAL = ["nan", "NaN", "NAN", "inf", "-inf", "+inf", "Inf", "INF", "infinity",
 TEXTS = ["", "a", "hello world", "with,comma", 'with "quotes"', "line1\nline2", "cr\rlf", "crlf\r\nend", "tab\there", " leading", "trailing ", "  two  spaces  ",
          "é ü ñ", "日本語", "\U0001F600", "'apostrophe", "=A1+B1", "TRUE", "false", "None", "0x10", "1,2,3,x", "12abc", "1 2", "--5", "1e", "e5", ".", "-", "+", ",",
          "$5", "5%", "1/2", "2020-01-01", "12:30", "\"", "\"\"", "a\"b", ",", ",,", "a,", "\n", "x\n", "null\x00byte"[:4],
-         "\ufeffid", "\ufeff12", "mid\ufeffdle", "\u200bzero width", "\xa0nbsp\xa0"]
+         "C:\\temp\\new", "\\d+\\.\\d*", "ends with \\", "back\\\"slash quote", "\\", "\\n not a newline", "\\,", "\ufeffid", "\ufeff12", "mid\ufeffdle", "\u200bzero width", "\xa0nbsp\xa0"]
 NUMBERS = ["0", "1", "-1", "+1", "42", "007", "3.14", "-0.5", ".5", "5.", "1,000", "1,234,567.89", "-1,000", "1e3", "1E3", "1.5e-7", "-2.5E+10", "1_000", "1_0.5",
            " 12 ", "12 ", "\t7", "١٢٣", "１２３", "999999999999999", "0.000001", "123456.789", "1e15", "-0", "0.0", "1e-300", "1e300",
            # long digit strings: still numbers (compared as doubles), never a crash
